@@ -12,7 +12,7 @@ T = {
          "inductive invariant over action traces + gated trace replay"),
  "C03": ("conn", "proof (partial): sweep / refusal / no-blocked-caller / received-wins theorems on the connection machine, and liveness as theorems about runs (from every reachable state in which the read direction has ended a finite run of the connection's own steps completes every call exactly once; assumes only that a socket write in progress returns); wall-clock promptness is measured by the harness only.",
          "inductive invariant over action traces + gated trace replay"),
- "C04": ("server", "proof (partial): exec-once / one-response / no-phantom theorems, each response is the one its own request dictates, and run-level liveness (every queue drains; every request is eventually executed once and answered once if entered handlers return) on the per-connection server machine in its four modes; poll-mode scheduling compared on final logs only. The clause 'the library never retries' is checked on the Transport by snapshot-step correspondence (one Call refines to one getConn and one registration) and by per-call execution counts under cut connections, not by a theorem of its own; arguments are compared byte for byte over header encoders x modes x sizes around every length-prefix boundary.",
+ "C04": ("server", "proof (partial): exec-once / one-response / no-phantom theorems, each response is the one its own request dictates, and run-level liveness (every queue drains; every request is eventually executed once and answered once if entered handlers return) on the per-connection server machine in its four modes; over the composed system client x wire x server (Sys/Once.v): no request is executed twice and a call reported successful was executed exactly once by a handler that returned no error; poll-mode scheduling compared on final logs only. The clause 'the library never retries' is checked on the Transport by snapshot-step correspondence (one Call refines to one getConn and one registration) and by per-call execution counts under cut connections, not by a theorem of its own; arguments are compared byte for byte over header encoders x modes x sizes around every length-prefix boundary.",
          "inductive invariant over server machine + trace replay"),
  "C05": ("server", "proof (partial): FIFO theorems for the single-worker queue transcription and order theorems for server and client pipelining; the real scheduler's goroutine hand-offs are exercised only; independence of connections (poll and non-poll listeners) is exercised over real sockets with several connections at once, not modelled.",
          "refinement to FIFO spec + trace replay"),
